@@ -10,6 +10,7 @@ import NetflowModel.Oracle
 import NetflowModel.Findings
 import NetflowModel.Cost
 import NetflowModel.Fast
+import NetflowModel.CostPrealloc
 import NetflowModel.Ctl
 import NetflowModel.GeneratedCtl
 import NetflowModel.ExportProg
@@ -187,10 +188,14 @@ def handleParse (s : Sess) (i : Nat) (op impl : Json) (line2 : Option Json := no
         -- bound on the peak: checking it can never raise an alarm where the property holds, and it keeps its bite inside the known class
         -- "buffer packed with packets" (quadratic TOTAL through the per-packet tail copy, but each copy is freed before the next is made)
         let peak := getNatD impl "peak" 0
-        let peakOk : Bool := Cost.allocBounded 64 16 131072 buf a.pkts peak
+        -- nom's `count(p, n)` reserves min(n, 64 KiB / size_of) elements before parsing any: every `count` site the parser reaches may
+        -- add up to 64 KiB that no byte of the buffer pays for (CostPrealloc.lean walks the buffer as the parser does and sums an upper
+        -- bound of these reservations).  The additive constant covers the other fixed costs; the reservations are allowed on top (×2).
+        let pre := if wants op "alloc" then Cost.preallocOf c before buf else 0
+        let peakOk : Bool := Cost.allocBounded 64 16 (131072 + 2 * pre) buf a.pkts peak
         let c15 : List (String × Bool) :=
           if wants op "alloc" then
-            [("C15", a.outcome != "done" || (Cost.allocBounded 64 16 131072 buf a.pkts alloc && peakOk && Cost.resultBounded 256 1024 buf before a.pkts))]
+            [("C15", a.outcome != "done" || (Cost.allocBounded 64 16 (131072 + 2 * pre) buf a.pkts alloc && peakOk && Cost.resultBounded 256 1024 buf before a.pkts))]
           else []
         let orc := orc ++ c07 a ++ c17 ++ c16 ++ c15
         let morc := morc ++ c07 m
@@ -239,7 +244,7 @@ def handleParse (s : Sess) (i : Nat) (op impl : Json) (line2 : Option Json := no
             | some v => if v.conformant && buf.length ≤ 4096 then toJson a.pkts else Json.null
             | none => Json.null),
           ("classes", jsonOfList classes),
-          ("alloc", getNatD impl "alloc" 0), ("peak", getNatD impl "peak" 0), ("result_size", Cost.resultSize a.pkts), ("state_wire", Cost.stateWire before),
+          ("alloc", getNatD impl "alloc" 0), ("peak", getNatD impl "peak" 0), ("prealloc", pre), ("result_size", Cost.resultSize a.pkts), ("state_wire", Cost.stateWire before),
           ("npkts", a.pkts.length),
           ("len", buf.length)])
 
